@@ -3,11 +3,13 @@
 //
 //   - TestTimeline drives the real certificate manager (hook: export_verif.go) on the
 //     virtual clock of a synctest bubble through generated timelines (key, start instant
-//     relative to the rotation boundaries, rollovers, restarts, twins) and judges every
-//     sampled instant against the statement.
+//     relative to the rotation boundaries, rollovers, restarts, twins, dialers that learn
+//     the address at some instant and dial it at instants defined relative to that one)
+//     and judges every sampled instant against the statement.
 //   - TestVerifier presents generated certificate-chain / hash-list pairs to the real
 //     verifier and compares with the reference predicate of the statement.
-//   - TestE2E* (thorough tier) dial a real listener over loopback UDP.
+//   - TestE2E* dial a real listener over loopback UDP (thorough tier; a few
+//     TestE2EFollowingPeriod cases also in the quick tier).
 //   - TestWitness_* are the deterministic witnesses of the two defects this check found.
 package c18
 
@@ -60,16 +62,24 @@ func TestMain(m *testing.M) {
 	stats.Describe("exploration",
 		"Timeline: rapid draws a host key (Ed25519 from a seed incl. seeds ground to hit the extreme rotation offsets; occasionally secp256k1/ECDSA/RSA), "+
 			"a start instant = rotation boundary (learnt from a probe manager) + j periods + delta with delta concentrated at {0, +-1ns, +-1ms, +-skew, +-skew+-1ms} plus uniform, "+
-			"and 1..10 steps (move to just before/at/after the next rotation, a fraction of the way, or a multi-period jump; then restart / close / twin / nothing). "+
+			"and 1..10 steps (move to just before/at/after the next rotation, a fraction of the way, a multi-period jump, or to a DIAL instant defined relative to the instant some dialer learnt the address "+
+			"(learn + {0,1,2} periods +-{0,1ns,1ms}, learn + uniform over 2.5 periods, end of the learn period +-, end of the following period +-); then restart / close / twin / learn (a dialer takes the address A or B advertises now) / nothing). "+
+			"A dialer also learns the address of A and of every B instance right after its construction; every dialer dials at every sampled instant from then on, so dial instants span 0..n rollovers of the same running manager. "+
 			"The real certManager runs on the bubble's virtual clock; a long-running manager A, a restartable manager B and short-lived twins are sampled right after their creation (before their timer goroutine ran), after every step and at every rotation instant passed. "+
 			"Oracle per sample: NotBefore+skew <= t <= NotAfter-skew, lifetime <= 14d, key matches, served SHA-256 in SerializedCertHashes and AddrComponent, "+
-			"every advertisement recorded in the current or the previous period verifies the served leaf now (verifyRawCerts on virtual time), every manager serves bytes identical to A. "+
+			"every advertisement recorded in the current or the previous period verifies the served leaf now (verifyRawCerts on virtual time), every manager serves bytes identical to A, "+
+			"and the hash list a manager confirms to dialers (SerializedCertHashes = the Noise early data) contains every hash of every address that this same running instance advertised in the current or the previous period. "+
+			"Oracle per dial (dialer modelled from the statement: real verifyRawCerts against the hashes of the learnt address, then every hash of the learnt address must be in the manager's SerializedCertHashes): "+
+			"must complete while the instance the address was learnt from keeps running and serves the learn period or the following one; beyond that only 'a certificate whose hash is not in the address is refused'; "+
+			"against a restarted instance only the certificate check is demanded (whether it confirms the older hash is a label). "+
 			"Non-trivial = some sample lies within 1 ms of a rotation boundary (NotBefore+skew / NotAfter-skew) or follows a restart; distinct = (key kind, offset class, start class, step classes, rollovers). "+
 			"Verifier: generated (chain of 0/1/2 certs, hash list, verification instant) against the reference predicate; non-trivial = at most one conjunct of the predicate fails; distinct = class tuple.",
 		"crypto/x509 parsing and crypto/sha256 are trusted (used by the oracle)",
 		"the clock-skew allowance is the exported constant (1h); the 14-day bound is taken from the statement",
 		"the 'server certificate' of a chain is rawCerts[0] (what crypto/tls authenticates the handshake with); 'RSA' = RSA public key or any RSA (PKCS#1 v1.5 / PSS) signature",
-		"the Noise early-data confirmation is exercised only by the thorough-tier loopback cases",
+		"inside the bubble the Noise early-data confirmation is modelled: the list the server sends is SerializedCertHashes() (listener.handshake) and the dialer demands every hash of the dialled address in it (transport.upgrade); "+
+			"the real handshake runs in the loopback cases only (TestE2EFollowingPeriod: 4 cases in the quick tier with 1..3 rollovers of the running listener and addresses learnt before/after each, 12 + TestE2EPinning/StaleServer in the thorough tier)",
+		"an address is promised to keep working only against the listener instance it was learnt from while that instance keeps running; a restart forgets the previous period's hash (lastConfig is nil after init) and is reported as a label, not as a violation",
 	)
 	hx.Main(m)
 }
@@ -466,18 +476,18 @@ type mgr struct {
 	created time.Time
 	lastSum [32]byte
 	rolled  bool
-	rolls   int  // rollovers observed on this instance
+	rolls   int // rollovers observed on this instance
 	closed  bool
 	probe   bool // throw-away manager used to learn the boundaries: judged on its own only
 }
 
 type world struct {
-	rt      *rapid.T
-	key     ic.PrivKey
-	a, b    *mgr
-	open    []*mgr
-	periods []*periodRec
-	adverts map[string]*advert // deduplicated by (period, kind, hash set)
+	rt       *rapid.T
+	key      ic.PrivKey
+	a, b     *mgr
+	open     []*mgr
+	periods  []*periodRec
+	adverts  map[string]*advert // deduplicated by (period, kind, hash set)
 	learners []*learner
 
 	// evidence
@@ -965,13 +975,26 @@ func TestTimeline(t *testing.T) {
 		if w.confirmMissing > 0 {
 			labels = append(labels, "note:restarted-server-cannot-confirm-previous-period-address")
 		}
+		for _, st := range spec.Steps {
+			if st.Move == "dial" {
+				w.label("gen:dial-move/" + st.Dial.Base)
+			}
+			if st.Act == "learn" {
+				w.label("gen:learn-act/" + st.From)
+			}
+		}
+		if w.dialsAcross > 0 {
+			labels = append(labels, "dial:running-listener-across-rollover")
+		}
+		labels = append(labels, fmt.Sprintf("learners=%d", min(len(w.learners), 8)/2*2))
 		for l := range w.labels {
 			labels = append(labels, l)
 		}
 		sort.Strings(labels)
 		stats.Case(name, fp, nontrivial, labels...)
 		if stats.WantSample(name) {
-			stats.Sample(name, map[string]any{"spec": spec, "rollovers": w.rollovers, "samples": w.samples, "periods": len(w.periods), "offset": offCls})
+			stats.Sample(name, map[string]any{"spec": spec, "rollovers": w.rollovers, "samples": w.samples, "periods": len(w.periods), "offset": offCls,
+				"learners": len(w.learners), "dials_running_listener": w.dialsRunning, "dials_across_rollover": w.dialsAcross})
 		}
 	})
 }
